@@ -1333,12 +1333,47 @@ def run_dist(case, ctx):
 
 
 # ------------------------------------------------------------------ (E) Python threads sharing one tree sequence
+def big_spec(seed, k, nt, nsites):
+    """Deterministic function of its arguments (seeded PRNG; the arguments are Hypothesis draws):
+    nt coalescent-like trees of one unit span each on k leaf samples, internal nodes private to a
+    tree, one single-mutation site per chosen tree.  Large enough for the GIL-free C sections of
+    concurrent calls to overlap."""
+    import random
+
+    rng = random.Random(seed)
+    times = [0.0] * k
+    edges = []
+    sites, muts = [], []
+    for i in range(nt):
+        roots = list(range(k))
+        t = 0.0
+        below = []
+        while len(roots) > 1:
+            m = 3 if (len(roots) > 2 and rng.random() < 0.15) else 2
+            pick = rng.sample(roots, m)
+            t += rng.choice([0.5, 1.0, 2.0])
+            pnode = len(times)
+            times.append(t)
+            for c in pick:
+                edges.append([float(i), float(i + 1), pnode, c, ""])
+                roots.remove(c)
+                below.append(c)
+            roots.append(pnode)
+        if len(sites) < nsites and below:
+            sites.append([i + 0.5, "A", ""])
+            muts.append([len(sites) - 1, rng.choice(below), "T", -1, None, ""])
+    edges.sort(key=lambda e: (times[e[2]], e[2], e[3], e[0]))
+    nodes = [[1 if u < k else 0, times[u], -1, -1, ""] for u in range(len(times))]
+    return dict(L=float(nt), nodes=nodes, edges=edges, sites=sites, mutations=muts, individuals=[],
+                populations=[], migrations=[])
+
+
 @st.composite
 def shared_case(draw):
-    spec = draw(stat_spec(min_samples=4, max_nodes=10))
-    return dict(spec=spec, nthreads=draw(st.sampled_from([2, 3, 4, 8])), repeat=draw(st.integers(1, 3)),
-                order=draw(st.permutations(list(range(10)))),
-                windows=draw_windows(draw, spec, kinds=("list",))[1])
+    return dict(seed=draw(st.integers(0, 2**31 - 1)), k=draw(st.integers(8, 40)), nt=draw(st.integers(2, 24)),
+                nsites=draw(st.integers(0, 24)), nthreads=draw(st.sampled_from([2, 3, 4, 8])),
+                loops=draw(st.integers(1, 4)), order=list(draw(st.permutations(list(range(10))))),
+                nwin=draw(st.integers(1, 6)))
 
 
 def run_shared(case, ctx):
@@ -1346,62 +1381,65 @@ def run_shared(case, ctx):
 
     import tskit
 
-    spec = case["spec"]
+    spec = big_spec(case["seed"], case["k"], case["nt"], case["nsites"])
     ts = gen.build_tables(spec, tskit).tree_sequence()
-    smp = model.samples(spec)
-    n = len(spec["nodes"])
-    labs = gen.spec_labels(spec, model)
-    for l in labs:
-        ctx.label(l)
+    k, nt = case["k"], case["nt"]
+    smp = list(range(k))
     ctx.label(f"nthreads={case['nthreads']}")
-    ctx.nt("multi_tree" in labs and bool(spec["edges"]))
-    half = len(smp) // 2
-    A, B = smp[:half], smp[half:]
-    wl = case["windows"]
-    W = np.array([[float((i * 7 + c * 3) % 5) - 1.5 for c in range(2)] for i in range(len(smp))])
+    ctx.label("samples>=20", k >= 20)
+    ctx.label("trees>=10", nt >= 10)
+    ctx.nt(nt >= 2)
+    A, B = smp[: k // 2], smp[k // 2:]
+    wl = [nt * i / case["nwin"] for i in range(case["nwin"] + 1)]
+    W = np.array([[float((i * 7 + c * 3) % 5) - 1.5 for c in range(2)] for i in range(k)])
     jobs = [
+        lambda: ts.divergence_matrix(windows=wl, mode="branch"),                       # GIL released
+        lambda: ts.divergence_matrix([A, B], mode="site", num_threads=2),              # GIL released + pool
+        lambda: ts.genealogical_nearest_neighbours(smp, [A, B]),                       # GIL released
+        lambda: ts.genealogical_nearest_neighbours(smp, [A, B], num_threads=3),        # GIL released + pool
+        lambda: ts.mean_descendants([A, B]),                                           # GIL released
+        lambda: ts.genetic_relatedness_vector(W, windows=wl, mode="branch", span_normalise=False),  # GIL released
         lambda: ts.diversity([A, B], windows=wl, mode="branch"),
-        lambda: ts.divergence([A, B], windows=wl, mode="site"),
-        lambda: ts.divergence_matrix([A, B], windows=wl, mode="branch"),
-        lambda: ts.divergence_matrix(windows=wl, mode="site", num_threads=2),
-        lambda: ts.allele_frequency_spectrum([A, B], windows=wl, mode="branch", polarised=True),
-        lambda: ts.genetic_relatedness_vector(W, windows=wl, mode="branch", span_normalise=False),
-        lambda: ts.genealogical_nearest_neighbours(smp, [A, B]),
-        lambda: ts.mean_descendants([A, B]),
-        lambda: ts.f2([A, B], windows=wl, mode="node"),
+        lambda: ts.allele_frequency_spectrum([A[:3], B[:3]], windows=wl, mode="branch", polarised=True),
+        lambda: ts.f2([A, B], windows=wl, mode="site"),
         lambda: ts.general_stat(W, lambda x: x * x, 2, windows=wl, mode="branch", strict=False),
     ]
     jobs = [jobs[i] for i in case["order"]]
     serial = [np.asarray(j(), dtype=float) for j in jobs]
     K = case["nthreads"]
-    for r in range(case["repeat"]):
-        results = [None] * K
-        errors = []
-        barrier = threading.Barrier(K)
+    results = [None] * K
+    errors = []
+    barrier = threading.Barrier(K)
 
-        def work(t):
-            try:
+    def work(t):
+        try:
+            out = []
+            for r in range(case["loops"]):
                 barrier.wait()
-                out = []
-                for q in range(len(jobs)):
+                for q in range(len(jobs)):  # different statistics at the same time
                     i = (q + t) % len(jobs)
                     out.append((i, np.asarray(jobs[i](), dtype=float)))
-                results[t] = out
-            except BaseException as e:  # re-raised in the main thread below
-                errors.append(e)
+                for i in range(len(jobs)):  # the same statistic in every thread at the same time
+                    barrier.wait()
+                    for _ in range(3):
+                        out.append((i, np.asarray(jobs[i](), dtype=float)))
+            results[t] = out
+        except BaseException as e:  # re-raised in the main thread below
+            errors.append(e)
+            barrier.abort()
 
-        threads = [threading.Thread(target=work, args=(t,)) for t in range(K)]
-        for th in threads:
-            th.start()
-        for th in threads:
-            th.join()
-        if errors:
-            raise errors[0]
-        for t in range(K):
-            for i, val in results[t]:
-                ctx.check(val.shape == serial[i].shape and bool(np.array_equal(val, serial[i], equal_nan=True)),
-                          "concurrent == serial",
-                          lambda: f"job {case['order'][i]} in thread {t}: {val!r} expected {serial[i]!r}")
+    threads = [threading.Thread(target=work, args=(t,)) for t in range(K)]
+    for th in threads:
+        th.start()
+    for th in threads:
+        th.join()
+    if errors:
+        raise errors[0]
+    for t in range(K):
+        for i, val in results[t]:
+            ctx.check(val.shape == serial[i].shape and bool(np.array_equal(val, serial[i], equal_nan=True)),
+                      "concurrent == serial",
+                      lambda: f"job {case['order'][i]} in thread {t}: {val!r} expected {serial[i]!r}")
 
 
 SUBCHECKS = [
@@ -1421,7 +1459,9 @@ SUBCHECKS = [
     SubCheck("C08.kc_rf", run_dist, strategy=dist_case, quick=400, thorough=12000,
              rule=">=3 samples (two tree sequences of single-rooted trees without unary nodes)", floors={}),
     SubCheck("C08.shared_threads", run_shared, strategy=shared_case, quick=150, thorough=4500,
-             rule=">=2 trees, K>=2 Python threads running 10 statistics on one shared tree sequence", floors={}),
+             rule=">=2 trees; K in {2,3,4,8} Python threads each running 10 statistics (6 of them release "
+             "the GIL) 1-4 times on one shared tree sequence of 8-40 samples x 2-24 trees; bitwise equal to "
+             "the serial results", floors={}),
 ]
 
 _PROBE_GRV = dict(
